@@ -810,7 +810,8 @@ func (s *State) extendFunctionEnv(
 		// Expending the last argument expecting it to be "..", but any other array will do too.
 		// The argument may be a reference (an outer variable named inside a function body): test the value it denotes.
 		if len(args) > 0 && object.Value(args[len(args)-1]).Type() == object.ARRAY {
-			args = append(args[:len(args)-1], object.Elements(args[len(args)-1])...)
+			// capacity clipped: append must copy, the caller's slice is the cache key of this call (applyFunction).
+			args = append(args[:len(args)-1:len(args)-1], object.Elements(args[len(args)-1])...)
 		}
 		if len(args) >= n {
 			extra = args[n:]
